@@ -10,3 +10,8 @@ import DeepModel.Props.C13
 #print axioms C13.c13_service_disjoint
 #print axioms C13.c13_service_untouched
 #print axioms C13.c13_exact_on_runs
+#print axioms C13.c13_register_after_close
+#print axioms C13.c13_register_bad_after_close
+#print axioms C13.c13_unregister_after_close_exact
+#print axioms C13.c13_unregister_unknown_after_close
+#print axioms C13.c13_closed_never_queues
